@@ -15,6 +15,7 @@ use crate::checks::common::*;
 use crate::conv;
 use crate::gen::{self, GenCfg};
 use crate::model::*;
+use crate::pipe;
 use crate::render::{self, SiteKind, Style};
 use crate::run::{catch, panic_site, Ctx, Failure, Kind, PropertyDef, Stream, Tier};
 use crate::tape::{digest, Tape};
@@ -183,14 +184,75 @@ fn s_markers(t: &mut Tape, ctx: &mut Ctx) -> Result<(), Failure> {
     Ok(())
 }
 
+/// Programs with hundreds of tracked call sites: every site must have a marker of its own.
+fn e_many_sites(i: u64, ctx: &mut Ctx) -> Result<(), Failure> {
+    let n = [2usize, 17, 255, 256, 257, 300, 513, 700][i as usize % 8];
+    let in_function = i >= 8;
+    let mut body = String::new();
+    for k in 0..n {
+        // distinct texts, several kinds of tracked calls
+        match k % 3 {
+            0 => body.push_str(&format!("    assert!(jet::eq_32({k}, {k}));\n")),
+            1 => body.push_str(&format!("    let v{k}: u32 = dbg!({k});\n")),
+            _ => body.push_str(&format!("    let w{k}: u32 = unwrap(Some({k}));\n")),
+        }
+    }
+    let text = if in_function { format!("fn many() {{\n{body}}}\n\nfn main() {{\n    many();\n    many();\n}}\n") } else { format!("fn main() {{\n{body}}}\n") };
+    let c = compile(&text, simfony::Arguments::default(), true, "c14")?;
+    let fail_cmr = Cmr::fail(FailEntropy::ZERO);
+    let markers: Vec<Cmr> = catch(|| {
+        let node = c.program.commit();
+        let mut out: HashSet<Cmr> = HashSet::new();
+        for item in node.as_ref().post_order_iter::<InternalSharing>() {
+            if let Inner::AssertL(_, cmr) = item.node.inner() {
+                if *cmr != fail_cmr {
+                    out.insert(*cmr);
+                }
+            }
+        }
+        out.into_iter().collect()
+    })
+    .map_err(|p| Failure::new(format!("panic:{}", panic_site(&p)), format!("commit() of the debug build panicked: {p}")))?;
+    // tracked sites: every assert! and its eq_32 jet, every dbg!, every unwrap
+    let expected = (0..n).map(|k| if k % 3 == 0 { 2 } else { 1 }).sum::<usize>();
+    ctx.evals(1);
+    let symbols = c.program.debug_symbols();
+    let mut texts: HashSet<String> = HashSet::new();
+    for m in &markers {
+        match symbols.get(m) {
+            Some(tc) => {
+                texts.insert(strip_ws(tc.text()));
+            }
+            None => return Err(Failure::new("c14:marker-without-debug-symbol", format!("marker {m} is unknown to debug_symbols() in a program with {expected} tracked call sites"))),
+        }
+    }
+    if markers.len() != expected || texts.len() != expected {
+        return Err(Failure::new(
+            "c14:call-site-without-own-marker",
+            format!("a program with {expected} tracked call sites (all with distinct texts) has {} distinct markers resolving to {} distinct texts", markers.len(), texts.len()),
+        )
+        .with(json!({"sites": expected, "markers": markers.len(), "program": truncate(&text, 600)})));
+    }
+    // and it still runs
+    let out = pipe::satisfy_and_run(&c.program, &c.info, simfony::WitnessValues::default(), None, &pipe::dummy_env());
+    let v = judge(&out, "c14", &truncate(&text, 400), &json!({}), true)?;
+    if v != Verdict::Success {
+        return Err(Failure::new("c14:debug-build-fails", format!("the debug build of a program of {n} succeeding statements fails: {}", out.brief())));
+    }
+    ctx.nontrivial(digest(&[text.as_bytes()]));
+    ctx.label("many-sites");
+    ctx.sample(n as u64, || json!({"tracked_sites": expected, "in_function_called_twice": in_function}));
+    Ok(())
+}
+
 pub fn streams() -> Vec<Stream> {
-    vec![Stream { name: "markers", kind: Kind::Tape { cases: |t: Tier| t.pick(12_000, 300_000), max_len: 600, f: s_markers }, isolate: false }]
+    vec![Stream { name: "many-sites", kind: Kind::Enum { count: |_| 16, complete: |_| true, f: e_many_sites }, isolate: false }, Stream { name: "markers", kind: Kind::Tape { cases: |t: Tier| t.pick(12_000, 300_000), max_len: 600, f: s_markers }, isolate: false }]
 }
 
 pub fn def() -> PropertyDef {
     PropertyDef {
         id: "C14",
-        rule: "generated programs (general and small family: call sites in main, in helper functions called 0 / 1 / several times, inside fold and loop bodies) rendered with varied layout (multi-line calls, one-line programs, tabs, CRLF, comments inside calls). Oracles: (a) for every witness assignment of the case the verdict with debug symbols equals the verdict without and the reference interpreter's; (b) markers = hidden CMRs of assertl nodes of the debug build's commit() other than the fail CMR of unwrap*: each is a key of debug_symbols(), its text equals modulo whitespace the source text of a tracked call site recorded by the renderer with byte offsets (for dbg! also the argument text), its kind is that site's kind, and per distinct call text the number of distinct markers equals the number of tracked sites reachable from main (so distinct sites have distinct markers and every reachable site has one); (c) for dbg! / unwrap_left / unwrap_right markers, map_value applied to the structural form of a generated value of the recorded type returns that value. evaluations = executions + markers checked. Non-trivial = >= 2 tracked call sites, at least one inside a function; distinct by digest.",
+        rule: "stream many-sites: programs with 2 ... 700 statements (assert! + jet, dbg!, unwrap; in main or in a function called twice), i.e. up to 933 tracked call sites with pairwise distinct texts: the number of distinct markers and of distinct marker texts must equal the number of sites. stream markers: generated programs (general and small family: call sites in main, in helper functions called 0 / 1 / several times, inside fold and loop bodies) rendered with varied layout (multi-line calls, one-line programs, tabs, CRLF, comments inside calls). Oracles: (a) for every witness assignment of the case the verdict with debug symbols equals the verdict without and the reference interpreter's; (b) markers = hidden CMRs of assertl nodes of the debug build's commit() other than the fail CMR of unwrap*: each is a key of debug_symbols(), its text equals modulo whitespace the source text of a tracked call site recorded by the renderer with byte offsets (for dbg! also the argument text), its kind is that site's kind, and per distinct call text the number of distinct markers equals the number of tracked sites reachable from main (so distinct sites have distinct markers and every reachable site has one); (c) for dbg! / unwrap_left / unwrap_right markers, map_value applied to the structural form of a generated value of the recorded type returns that value. evaluations = executions + markers checked. Non-trivial = >= 2 tracked call sites, at least one inside a function; distinct by digest.",
         assumptions: &["simplicity-lang 0.4.0 keeps its execution tracker private, so the value that arrives at a marker at run time is not observed; dbg!'s transparency is covered by (a)"],
         streams,
         health: &[("markers", "site-inside-function", 100), ("markers", "map_value:checked", 100)],
